@@ -1,11 +1,255 @@
 package main
 
-// generateHarnesses writes harness files derived from the current source of repo into dir.
+// Harness generator: reads the struct definitions of the current source tree and emits the
+// per-type field tables, setters and field-by-field comparators the harness families use.
+
+import (
+	"bytes"
+	"fmt"
+	"go/ast"
+	"go/parser"
+	"go/token"
+	"os"
+	"path/filepath"
+	"reflect"
+	"sort"
+	"strings"
+)
+
+type genField struct {
+	Name, Type, Term, Kind string
+	Collapsible            bool
+}
+
+type genStruct struct {
+	Name   string
+	Fields []genField
+	File   string
+}
+
+var kindOfType = map[string]string{
+	"ID": "IRI", "IRI": "IRI", "ActivityVocabularyType": "Type", "NaturalLanguageValues": "NLV",
+	"Item": "Item", "ObjectOrLink": "Item", "CanReceiveActivities": "Item", "ItemCollection": "Items",
+	"time.Time": "Time", "time.Duration": "Duration", "MimeType": "Mime", "Source": "Source",
+	"uint": "Uint", "float64": "Float", "string": "String", "int64": "Int", "bool": "Bool",
+	"PublicKey": "PublicKey", "LangRef": "LangRef", "*Endpoints": "Endpoints",
+}
+
+func exprString(e ast.Expr) string {
+	switch x := e.(type) {
+	case *ast.Ident:
+		return x.Name
+	case *ast.SelectorExpr:
+		return exprString(x.X) + "." + x.Sel.Name
+	case *ast.StarExpr:
+		return "*" + exprString(x.X)
+	case *ast.ArrayType:
+		return "[]" + exprString(x.Elt)
+	}
+	return fmt.Sprintf("%T", e)
+}
+
+// parseStructs returns the vocabulary structs (those with jsonld tags) of the package in repo.
+func parseStructs(repo string) ([]genStruct, error) {
+	fset := token.NewFileSet()
+	files, err := filepath.Glob(filepath.Join(repo, "*.go"))
+	if err != nil {
+		return nil, err
+	}
+	sort.Strings(files)
+	var out []genStruct
+	for _, f := range files {
+		if strings.HasSuffix(f, "_test.go") || strings.HasPrefix(filepath.Base(f), "zz_vp_") {
+			continue
+		}
+		af, err := parser.ParseFile(fset, f, nil, 0)
+		if err != nil {
+			return nil, err
+		}
+		for _, d := range af.Decls {
+			gd, ok := d.(*ast.GenDecl)
+			if !ok || gd.Tok != token.TYPE {
+				continue
+			}
+			for _, sp := range gd.Specs {
+				ts := sp.(*ast.TypeSpec)
+				st, ok := ts.Type.(*ast.StructType)
+				if !ok || ts.Assign.IsValid() {
+					continue
+				}
+				gs := genStruct{Name: ts.Name.Name, File: filepath.Base(f)}
+				tagged := false
+				for _, fl := range st.Fields.List {
+					tag := ""
+					if fl.Tag != nil {
+						tag = reflect.StructTag(strings.Trim(fl.Tag.Value, "`")).Get("jsonld")
+					}
+					if tag != "" {
+						tagged = true
+					}
+					parts := strings.Split(tag, ",")
+					for _, n := range fl.Names {
+						gf := genField{Name: n.Name, Type: exprString(fl.Type), Term: parts[0]}
+						for _, p := range parts[1:] {
+							if p == "collapsible" {
+								gf.Collapsible = true
+							}
+						}
+						gf.Kind = kindOfType[gf.Type]
+						if gf.Kind == "" {
+							gf.Kind = "Unknown"
+						}
+						gs.Fields = append(gs.Fields, gf)
+					}
+				}
+				if tagged {
+					out = append(out, gs)
+				}
+			}
+		}
+	}
+	return out, nil
+}
+
+var vocabOrder = []string{"Object", "Actor", "Activity", "IntransitiveActivity", "Question", "Collection", "CollectionPage",
+	"OrderedCollection", "OrderedCollectionPage", "Place", "Profile", "Relationship", "Tombstone", "Link"}
+
+var canonicalType = map[string]string{"Object": "NoteType", "Actor": "PersonType", "Activity": "LikeType", "IntransitiveActivity": "ArriveType",
+	"Question": "QuestionType", "Collection": "CollectionType", "CollectionPage": "CollectionPageType", "OrderedCollection": "OrderedCollectionType",
+	"OrderedCollectionPage": "OrderedCollectionPageType", "Place": "PlaceType", "Profile": "ProfileType", "Relationship": "RelationshipType",
+	"Tombstone": "TombstoneType", "Link": "MentionType"}
+
 func generateHarnesses(repo, prop, dir string) error {
+	structs, err := parseStructs(repo)
+	if err != nil {
+		return err
+	}
+	byName := map[string]genStruct{}
+	for _, s := range structs {
+		byName[s.Name] = s
+	}
+	var vocab []genStruct
+	for _, n := range vocabOrder {
+		if s, ok := byName[n]; ok {
+			vocab = append(vocab, s)
+		}
+	}
+	// any further tagged struct that implements the vocabulary (new type added to the source)
+	for _, s := range structs {
+		known := false
+		for _, n := range vocabOrder {
+			if n == s.Name {
+				known = true
+			}
+		}
+		if !known && s.Name != "Source" && s.Name != "Endpoints" && s.Name != "PublicKey" {
+			hasID := false
+			for _, f := range s.Fields {
+				if f.Name == "ID" {
+					hasID = true
+				}
+			}
+			if hasID {
+				vocab = append(vocab, s)
+			}
+		}
+	}
+	var b bytes.Buffer
+	b.WriteString("package activitypub\n\n// Code generated from the struct definitions of the current tree. DO NOT EDIT.\n\n")
+	b.WriteString("type vpFieldInfo struct {\n\tName, Kind, Term string\n\tCollapsible bool\n}\n\n")
+	// type table
+	b.WriteString("var vpTypeNames = []string{")
+	for _, s := range vocab {
+		fmt.Fprintf(&b, "%q, ", s.Name)
+	}
+	b.WriteString("}\n\n")
+	b.WriteString("// vpNew returns a pointer to a fresh value of vocabulary struct ti with its canonical type set.\nfunc vpNew(ti int) Item {\n\tswitch ti {\n")
+	for i, s := range vocab {
+		ct := canonicalType[s.Name]
+		if ct == "" {
+			fmt.Fprintf(&b, "\tcase %d:\n\t\treturn &%s{}\n", i, s.Name)
+		} else {
+			fmt.Fprintf(&b, "\tcase %d:\n\t\treturn &%s{Type: %s}\n", i, s.Name, ct)
+		}
+	}
+	b.WriteString("\t}\n\treturn nil\n}\n\n")
+	b.WriteString("func vpFieldsOf(ti int) []vpFieldInfo {\n\tswitch ti {\n")
+	for i, s := range vocab {
+		fmt.Fprintf(&b, "\tcase %d:\n\t\treturn vpFields_%s\n", i, s.Name)
+	}
+	b.WriteString("\t}\n\treturn nil\n}\n\n")
+	b.WriteString("func vpSetField(it Item, field, shape int, tag byte) {\n\tswitch x := it.(type) {\n")
+	for _, s := range vocab {
+		fmt.Fprintf(&b, "\tcase *%s:\n\t\tvpSet_%s(x, field, shape, tag)\n", s.Name, s.Name)
+	}
+	b.WriteString("\t}\n}\n\n")
+	b.WriteString("func vpFieldIsZero(it Item, field int) bool {\n\tswitch x := it.(type) {\n")
+	for _, s := range vocab {
+		fmt.Fprintf(&b, "\tcase *%s:\n\t\treturn vpIsZero_%s(x, field)\n", s.Name, s.Name)
+	}
+	b.WriteString("\t}\n\treturn true\n}\n\n")
+	b.WriteString("// vpDiffItems asserts field by field that two values of the same vocabulary struct are equal.\nfunc vpDiffItems(prefix string, a, b Item, skip func(string) bool) {\n\tswitch x := a.(type) {\n")
+	for _, s := range vocab {
+		fmt.Fprintf(&b, "\tcase *%s:\n\t\ty, ok := b.(*%s)\n\t\tvpAssert(prefix+\"/same-go-type\", ok && y != nil)\n\t\tif ok && y != nil {\n\t\t\tvpDiff_%s(prefix, x, y, skip)\n\t\t}\n", s.Name, s.Name, s.Name)
+	}
+	b.WriteString("\tdefault:\n\t\tvpAssert(prefix+\"/known-type\", false)\n\t}\n}\n\n")
+	b.WriteString("// vpCloneItem makes a shallow copy of a vocabulary struct behind a pointer.\nfunc vpCloneItem(a Item) Item {\n\tswitch x := a.(type) {\n")
+	for _, s := range vocab {
+		fmt.Fprintf(&b, "\tcase *%s:\n\t\tc := *x\n\t\treturn &c\n", s.Name)
+	}
+	b.WriteString("\t}\n\treturn a\n}\n\n")
+	// deep comparator over items
+	b.WriteString("// vpEqItem is a structural comparator independent of the library's own equality.\nfunc vpEqItem(a, b Item) bool {\n\tif a == nil || b == nil {\n\t\treturn a == nil && b == nil\n\t}\n\tswitch x := a.(type) {\n")
+	b.WriteString("\tcase IRI:\n\t\ty, ok := b.(IRI)\n\t\treturn ok && x == y\n")
+	b.WriteString("\tcase ItemCollection:\n\t\ty, ok := b.(ItemCollection)\n\t\treturn ok && vpEq_Items(x, y)\n")
+	b.WriteString("\tcase IRIs:\n\t\ty, ok := b.(IRIs)\n\t\tif !ok || len(x) != len(y) {\n\t\t\treturn false\n\t\t}\n\t\tfor i := range x {\n\t\t\tif x[i] != y[i] {\n\t\t\t\treturn false\n\t\t\t}\n\t\t}\n\t\treturn true\n")
+	for _, s := range vocab {
+		fmt.Fprintf(&b, "\tcase *%s:\n\t\ty, ok := b.(*%s)\n\t\tif !ok || x == nil || y == nil {\n\t\t\treturn ok && x == nil && y == nil\n\t\t}\n\t\treturn vpDeepEq_%s(x, y)\n", s.Name, s.Name, s.Name)
+		fmt.Fprintf(&b, "\tcase %s:\n\t\ty, ok := b.(%s)\n\t\treturn ok && vpDeepEq_%s(&x, &y)\n", s.Name, s.Name, s.Name)
+	}
+	b.WriteString("\t}\n\treturn false\n}\n\n")
+	all := append(append([]genStruct{}, vocab...), byName["Source"], byName["Endpoints"], byName["PublicKey"])
+	for _, s := range all {
+		if s.Name == "" {
+			continue
+		}
+		fmt.Fprintf(&b, "var vpFields_%s = []vpFieldInfo{\n", s.Name)
+		for _, f := range s.Fields {
+			fmt.Fprintf(&b, "\t{%q, %q, %q, %v},\n", f.Name, f.Kind, f.Term, f.Collapsible)
+		}
+		b.WriteString("}\n\n")
+		fmt.Fprintf(&b, "func vpDeepEq_%s(a, b *%s) bool {\n", s.Name, s.Name)
+		for _, f := range s.Fields {
+			fmt.Fprintf(&b, "\tif !vpEq_%s(a.%s, b.%s) {\n\t\treturn false\n\t}\n", f.Kind, f.Name, f.Name)
+		}
+		b.WriteString("\treturn true\n}\n\n")
+		fmt.Fprintf(&b, "func vpDiff_%s(prefix string, a, b *%s, skip func(string) bool) {\n", s.Name, s.Name)
+		for _, f := range s.Fields {
+			fmt.Fprintf(&b, "\tif skip == nil || !skip(%q) {\n\t\tvpAssert(prefix+\"/%s\", vpEq_%s(a.%s, b.%s))\n\t}\n", f.Name, f.Name, f.Kind, f.Name, f.Name)
+		}
+		b.WriteString("}\n\n")
+		fmt.Fprintf(&b, "func vpSet_%s(x *%s, field, shape int, tag byte) {\n\tswitch field {\n", s.Name, s.Name)
+		for i, f := range s.Fields {
+			fmt.Fprintf(&b, "\tcase %d:\n\t\tx.%s = vpMk_%s(shape, tag)\n", i, f.Name, f.Kind)
+		}
+		b.WriteString("\t}\n}\n\n")
+		fmt.Fprintf(&b, "func vpIsZero_%s(x *%s, field int) bool {\n\tswitch field {\n", s.Name, s.Name)
+		for i, f := range s.Fields {
+			fmt.Fprintf(&b, "\tcase %d:\n\t\treturn vpZero_%s(x.%s)\n", i, f.Kind, f.Name)
+		}
+		b.WriteString("\t}\n\treturn true\n}\n\n")
+	}
+	if err := os.WriteFile(filepath.Join(dir, "gen.go"), b.Bytes(), 0o644); err != nil {
+		return err
+	}
 	if g, ok := generators[prop]; ok {
-		return g(repo, dir)
+		return g(repo, dir, vocab)
 	}
 	return nil
 }
 
-var generators = map[string]func(repo, dir string) error{}
+var generators = map[string]func(repo, dir string, vocab []genStruct) error{}
+
+// shapesOfKind: number of value shapes the harness library offers for a field kind.
+var shapesOfKind = map[string]int{"IRI": 1, "Type": 0, "NLV": 3, "Item": 7, "Items": 3, "Time": 3, "Duration": 3, "Mime": 1, "Source": 2,
+	"Uint": 1, "Float": 3, "String": 1, "Int": 2, "Bool": 1, "PublicKey": 1, "LangRef": 1, "Endpoints": 1, "Unknown": 0}
